@@ -1042,16 +1042,14 @@ def r_supersede(ctx) -> RuleResult:
     res = RuleResult("R-SUPERSEDE", "V2000 property block: CHG or RAD lines clear both chg and rad of every atom before the merge; the scan ends at `M  END` or raises")
     v2 = reader_entries(ctx)["V2000"]
     clo = [ctx.cg.funcs[q] for q in ctx.cg.closure([v2.fq])]
-    # the property-block function: the one whose scan loop stops at `M  END`
-    pf = None
+    # the scan function: the one whose loop over the lines stops at `M  END`
+    sf = None
     for f in clo:
         for lp in [n for n in own_walk(f.node) if isinstance(n, ast.For)]:
             if mentions_text(ctx, f, lp, "M  END"):
-                pf = f
-    if pf is None:
+                sf = f
+    if sf is None:
         raise AnalysisError("R-SUPERSEDE: no scan loop with an `M  END` test in the V2000 reader (anchor vanished)")
-    fn = pf.node
-    cfg = cfg_of(fn)
     chg_k = ctx.repo.const("tucan.graph_attributes", "CHG")
     rad_k = ctx.repo.const("tucan.graph_attributes", "RAD")
 
@@ -1098,100 +1096,215 @@ def r_supersede(ctx) -> RuleResult:
             if isinstance(v, str):
                 out.append((x, v))
         return out
-    kills = []          # dicts: key, site (node in pf), node (the removal), func, pf_guards, callee_guards, call
-    for x, k in removals(pf, {}):
-        kills.append({"key": k, "site": x, "node": x, "func": pf, "pf_guards": guards_of(fn, x), "callee_guards": [], "call": None})
-    for x in own_walk(fn):
-        if isinstance(x, ast.Call):
-            cs = ctx.cg.resolve_call(pf, x, ctx.cg.local_types(pf), set(params_of(fn)))
-            if cs.kind != "tucan":
-                continue
-            tf = cs.target
-            tp = params_of(tf.node)
-            bind = {}
-            for i_, a_ in enumerate(x.args):
-                if i_ < len(tp):
-                    v = try_const(ctx, pf, a_)
-                    if v is not None:
-                        bind[tp[i_]] = v
-            for y, k in removals(tf, bind):
-                kills.append({"key": k, "site": x, "node": y, "func": tf, "pf_guards": guards_of(fn, x), "callee_guards": guards_of(tf.node, y), "call": x})
-    kill_nodes = {id(k["site"]): (k["site"], {kk["key"] for kk in kills if kk["site"] is k["site"]}) for k in kills}
-    # merge: where the collected entries are written over the atom records (|= / update), in pf or a callee
-    merge_calls = []
-    merge_inner = {}
-    scan0 = next((lp for lp in own_walk(fn) if isinstance(lp, ast.For) and isinstance(lp.target, ast.Name)
-                  and mentions_text(ctx, pf, lp, "M  END")), None)
-    for x in own_walk(fn):
-        if isinstance(x, ast.Call):
-            cs = ctx.cg.resolve_call(pf, x, ctx.cg.local_types(pf), set(params_of(fn)))
-            if cs.kind == "tucan":
-                inner = [y for y in own_walk(cs.target.node) if (isinstance(y, ast.AugAssign) and isinstance(y.op, ast.BitOr)) or
-                         (isinstance(y, ast.Call) and isinstance(y.func, ast.Attribute) and y.func.attr == "update")]
-                # the callee merges *into atom records*: it is handed the atom table (not only the collecting dict)
-                scanned = {n_.id for n_ in ast.walk(scan0.iter) if isinstance(n_, ast.Name)} if scan0 is not None else set()
-                atom_tbls = set(params_of(fn)) - scanned
-                if inner and any(isinstance(a_, ast.Name) and a_.id in atom_tbls for a_ in x.args) and \
-                        not any(scan_var(ctx, pf, fn) in names_in(a_) for a_ in x.args):
-                    merge_calls.append(x)
-                    merge_inner[id(x)] = (cs.target, inner)
+
+    unnamed: list = []
+
+    def collect(pf):
+        fn = pf.node
+        kills = []          # dicts: key, site (node in pf), node (the removal), func, pf_guards, callee_guards, call
+        for x, k in removals(pf, {}):
+            kills.append({"key": k, "site": x, "node": x, "func": pf, "pf_guards": guards_of(fn, x), "callee_guards": [], "call": None})
+        for x in own_walk(fn):
+            if isinstance(x, ast.Call):
+                cs = ctx.cg.resolve_call(pf, x, ctx.cg.local_types(pf), set(params_of(fn)))
+                if cs.kind != "tucan":
+                    continue
+                tf = cs.target
+                tp = params_of(tf.node)
+                binds = [{}]
+                for i_, a_ in enumerate(x.args):
+                    if i_ < len(tp):
+                        v = try_const(ctx, pf, a_)
+                        if v is not None:
+                            for b_ in binds:
+                                b_[tp[i_]] = v
+                        elif isinstance(a_, ast.Name):
+                            # the variable of a loop over a constant sequence: one call per element
+                            for lp_ in own_walk(fn):
+                                if isinstance(lp_, ast.For) and isinstance(lp_.target, ast.Name) and lp_.target.id == a_.id and any(z is x for z in ast.walk(lp_)):
+                                    seqv = try_const(ctx, pf, lp_.iter)
+                                    if isinstance(seqv, (tuple, list)) and seqv and len(seqv) <= 8:
+                                        binds = [dict(b_, **{tp[i_]: el_}) for b_ in binds for el_ in seqv]
+                for bind in binds:
+                    for y, k in removals(tf, bind):
+                        kills.append({"key": k, "site": x, "node": y, "func": tf, "pf_guards": guards_of(fn, x), "callee_guards": guards_of(tf.node, y), "call": x, "bind": bind})
+                # a removal whose key this analysis cannot name
+                for y in own_walk(tf.node):
+                    kx = y.args[0] if isinstance(y, ast.Call) and isinstance(y.func, ast.Attribute) and y.func.attr == "pop" and y.args else \
+                        (y.targets[0].slice if isinstance(y, ast.Delete) and len(y.targets) == 1 and isinstance(y.targets[0], ast.Subscript) else None)
+                    if kx is not None and not any(isinstance(bb.get(kx.id) if isinstance(kx, ast.Name) else try_const(ctx, tf, kx), str) for bb in binds):
+                        unnamed.append(f"`{short(y, 40)}` in {tf.qualname} (called as `{short(x, 50)}`)")
+        # merge: where the collected entries are written over the atom records (|= / update), in pf or a callee
+        merge_calls = []
+        merge_inner = {}
+        scan0 = next((lp for lp in own_walk(fn) if isinstance(lp, ast.For) and isinstance(lp.target, ast.Name)
+                      and mentions_text(ctx, pf, lp, "M  END")), None)
+        scanned = {n_.id for n_ in ast.walk(scan0.iter) if isinstance(n_, ast.Name)} if scan0 is not None else set()
+        if scan0 is None:
+            # the scan lives in a callee: the parameters handed to it at the positions its loop iterates over
+            sps = params_of(sf.node)
+            it_names = {n_.id for lp in own_walk(sf.node) if isinstance(lp, ast.For) and mentions_text(ctx, sf, lp, "M  END") for n_ in ast.walk(lp.iter) if isinstance(n_, ast.Name)}
+            for x in own_walk(fn):
+                if isinstance(x, ast.Call):
+                    cs = ctx.cg.resolve_call(pf, x, ctx.cg.local_types(pf), set(params_of(fn)))
+                    if cs.kind == "tucan" and cs.target.fq == sf.fq:
+                        for i_, a_ in enumerate(x.args):
+                            if i_ < len(sps) and sps[i_] in it_names and isinstance(a_, ast.Name):
+                                scanned.add(a_.id)
+        for x in own_walk(fn):
+            if isinstance(x, ast.Call):
+                cs = ctx.cg.resolve_call(pf, x, ctx.cg.local_types(pf), set(params_of(fn)))
+                if cs.kind == "tucan":
+                    inner = [y for y in own_walk(cs.target.node) if (isinstance(y, ast.AugAssign) and isinstance(y.op, ast.BitOr)) or
+                             (isinstance(y, ast.Call) and isinstance(y.func, ast.Attribute) and y.func.attr == "update")]
+                    # the callee merges *into atom records*: it is handed the atom table (not only the collecting dict)
+                    lv_ = scan_var(ctx, pf, fn)
+                    if inner and any(isinstance(a_, ast.Name) and a_.id not in scanned for a_ in x.args) and \
+                            not any(lv_ is not None and lv_ in names_in(a_) for a_ in x.args) and cs.target.fq != sf.fq:
+                        merge_calls.append(x)
+                        merge_inner[id(x)] = (cs.target, inner)
+        if not merge_calls:
+            for y in own_walk(fn):
+                if isinstance(y, ast.AugAssign) and isinstance(y.op, ast.BitOr):
+                    merge_calls.append(y)
+        return kills, merge_calls, merge_inner, scanned
+
+    # the property-block function: the scan function itself when it also clears and merges, else the function that calls it
+    pf = sf
+    kills, merge_calls, merge_inner, scanned = collect(sf)
     if not merge_calls:
-        for y in own_walk(fn):
-            if isinstance(y, ast.AugAssign) and isinstance(y.op, ast.BitOr):
-                merge_calls.append(y)
+        callers = {cs.caller.fq: cs.caller for cs in ctx.cg.callers_of(sf.fq) if cs.caller.fq in {f.fq for f in clo} | {v2.fq}}
+        for c_ in callers.values():
+            k2, m2, mi2, sc2 = collect(c_)
+            if m2:
+                pf, kills, merge_calls, merge_inner, scanned = c_, k2, m2, mi2, sc2
+                break
     if not merge_calls:
         raise AnalysisError("R-SUPERSEDE: cannot find where property entries are merged into the atom records")
-    # ---- what does seeing a CHG line / a RAD line establish, whatever its entries are?  Run the statements before the scan
-    #      loop and then one pass of the loop body on sample lines of that kind (samples with different content); every guard
-    #      of a removal must come out true after each of them
+    fn = pf.node
+    cfg = cfg_of(fn)
+    kill_nodes = {id(k["site"]): (k["site"], {kk["key"] for kk in kills if kk["site"] is k["site"]}) for k in kills}
+    # ---- what does seeing a CHG line / a RAD line establish, whatever its entries are?  The property-block function is
+    #      followed on a block that consists of one sample line of that kind (samples with different content) and `M  END`;
+    #      the atom table and everything computed from the entries is unknown.  Every removal must be executed for sure.
     SAMPLES = {"M  CHG": ["M  CHG  1   1   1", "M  CHG  1   2   0", "M  CHG  0"],
                "M  RAD": ["M  RAD  1   1   2", "M  RAD  1   3   0", "M  RAD  0"]}
-    scan = next((lp for lp in own_walk(fn) if isinstance(lp, ast.For) and isinstance(lp.target, ast.Name)
-                 and mentions_text(ctx, pf, lp, "M  END")), None)
+    scan = next((lp for lp in own_walk(sf.node) if isinstance(lp, ast.For) and isinstance(lp.target, ast.Name)
+                 and mentions_text(ctx, sf, lp, "M  END")), None)
     if scan is None:
         raise AnalysisError("R-SUPERSEDE: scan loop not found")
     lv = scan.target.id
-    consts = {}
-    for f_ in {pf} | {k["func"] for k in kills}:
+
+    def consts_of(f_):
+        out_ = {}
         for nm in {x.id for x in ast.walk(f_.node) if isinstance(x, ast.Name)}:
             v = try_const(ctx, f_, ast.Name(nm, ast.Load()))
             if v is not None:
-                consts.setdefault(nm, v)
-    pre = [st for st in fn.body if st.end_lineno < scan.lineno]
+                out_.setdefault(nm, v)
+        return out_
+    consts = {}
+    for f_ in {pf, sf} | {k["func"] for k in kills}:
+        for a_, b_ in consts_of(f_).items():
+            consts.setdefault(a_, b_)
+    from ..concrete import UNKNOWN, PathEval, PState
+    if not scanned:
+        raise AnalysisError("R-SUPERSEDE: cannot tell which variable of the property-block function holds the lines that are scanned")
 
-    def after_sample(smp):
-        env = dict(consts)
-        run_body(pre, env)
-        env[lv] = smp
-        run_body(scan.body, env)
-        return env
+    # module-level functions of the reader are followed into (their bodies are read the same way)
+    callable_funcs = {}
+    for f_ in pf.module.functions.values():
+        if f_.cls is None and "." not in f_.qualname and f_.fq != pf.fq:
+            callable_funcs[f_.name] = (f_.node, consts_of(f_))
+
+    # the top-level statement of the property-block function in which the scan happens
+    i0 = None
+    for i_, st_ in enumerate(fn.body):
+        for x in ast.walk(st_):
+            if (sf is pf and x is scan) or (sf is not pf and isinstance(x, ast.Call) and isinstance(x.func, ast.Name) and x.func.id == sf.name):
+                i0 = i_ if i0 is None else i0
+    if i0 is None:
+        raise AnalysisError("R-SUPERSEDE: cannot find the statement of the property-block function that scans the lines")
+
+    def follow(smp):
+        """(statements executed on every way through, gaps) when the property-block function is followed on the block
+        [smp, 'M  END']; None for the statements if every way through ends in a raise"""
+        import copy
+        pe = PathEval(callable_funcs)
+        env = copy.deepcopy(consts)
+        for p_ in params_of(fn):
+            env[p_] = [smp, "M  END"] if p_ in scanned else UNKNOWN
+        # what precedes the scan works on the file as a whole (unknown here); the scan itself sees the sample block
+        states, lefts = pe.block(fn.body[:i0], [PState(env)])
+        if lefts and not states:
+            return None, pe.gaps or ["the statements in front of the scan leave the function"]
+        for st_ in states:
+            for nm in scanned:
+                st_.env[nm] = [smp, "M  END"]
+        pe.gaps = []
+        falls, lefts2 = pe.block(fn.body[i0:], states)
+        ends = [st_ for st_ in falls] + [st_ for st_, how, _v in lefts2 if how == "return"]
+        if not ends:
+            return None, pe.gaps
+        tr = None
+        for st_ in ends:
+            tr = set(st_.trace) if tr is None else tr & st_.trace
+        return tr, pe.gaps
+
+    def chain_to(fnode, target):
+        """statements of fnode that enclose `target`, outermost first"""
+        out_ = []
+
+        def walk(stmts):
+            for st in stmts:
+                if st is target or any(x is target for x in ast.walk(st)):
+                    out_.append(st)
+                    for fld in ("body", "orelse", "finalbody"):
+                        sub = getattr(st, fld, None)
+                        if isinstance(sub, list) and any(x is target for b_ in sub if isinstance(b_, ast.stmt) for x in ast.walk(b_)):
+                            walk([b_ for b_ in sub if isinstance(b_, ast.stmt)])
+                    return
+        walk(fnode.body)
+        return out_
 
     def established(k) -> tuple:
         """(True, '') / (False, reason) / raises Unsupported"""
+        chain = chain_to(fn, k["site"])
         for kind, samples in SAMPLES.items():
             for smp in samples:
-                env = after_sample(smp)
-                for test, pol in k["pf_guards"]:
-                    if bool(ceval(test, env)) != pol:
-                        return False, f"`{short(test, 40)}` is {not pol} after the line {smp!r}"
+                trace, gaps = follow(smp)
+                env = dict(consts)
+                if trace is None:
+                    raise Unsupported(f"following the property block on the line {smp!r} ends in a raise on every path" + (f" ({gaps[0]})" if gaps else ""))
+                prev_if = None
+                for st in chain:
+                    if id(st) not in trace:
+                        if gaps:
+                            raise Unsupported(f"following the property block on the line {smp!r}: {gaps[0]}")
+                        t_ = prev_if.test if prev_if is not None else None
+                        return False, (f"`{short(t_, 40)}` is not certain to hold after the line {smp!r}" if t_ is not None else f"`{short(st, 40)}` is not reached after the line {smp!r}")
+                    if isinstance(st, (ast.For, ast.While)):
+                        break          # a loop over the atoms: what is inside is done for each of them
+                    prev_if = st if isinstance(st, ast.If) else prev_if
                 if k["call"] is not None:
-                    tp = params_of(k["func"].node)
-                    env2 = dict(consts)
-                    for i_, a_ in enumerate(k["call"].args):
-                        if i_ < len(tp):
-                            try:
-                                env2[tp[i_]] = ceval(a_, env)
-                            except Unsupported:
-                                pass
-                    for kw_ in k["call"].keywords:
-                        if kw_.arg:
-                            try:
-                                env2[kw_.arg] = ceval(kw_.value, env)
-                            except Unsupported:
-                                pass
-                    for test, pol in k["callee_guards"]:
-                        if bool(ceval(test, env2)) != pol:
-                            return False, f"`{short(test, 40)}` is {not pol} after the line {smp!r}"
+                    # inside the callee: the statements around the removal are executed on every way through as well
+                    prev_if = None
+                    for st in chain_to(k["func"].node, k["node"]):
+                        if id(st) not in trace:
+                            if gaps:
+                                raise Unsupported(f"following the property block on the line {smp!r}: {gaps[0]}")
+                            t_ = prev_if.test if prev_if is not None else None
+                            return False, (f"`{short(t_, 40)}` in {k['func'].name} is not certain to hold after the line {smp!r}" if t_ is not None else f"`{short(st, 40)}` is not reached after the line {smp!r}")
+                        if isinstance(st, (ast.For, ast.While)):
+                            break
+                        prev_if = st if isinstance(st, ast.If) else prev_if
+                    n_sites = len({id(kk["call"]) for kk in kills if kk["func"] is k["func"] and kk["call"] is not None})
+                    if n_sites > 1 and k["callee_guards"]:
+                        # the callee is used for several attributes: its own tests are read with this call's constants
+                        env2 = dict(consts)
+                        env2.update(k.get("bind") or {})
+                        for test, pol in k["callee_guards"]:
+                            if bool(ceval(test, env2)) != pol:
+                                return False, f"`{short(test, 40)}` is {not pol} after the line {smp!r}"
         return True, ""
     killed_when = {chg_k: False, rad_k: False}
     why_not = {}
@@ -1212,6 +1325,8 @@ def r_supersede(ctx) -> RuleResult:
             killed_when[k["key"]] = True
         else:
             why_not[k["key"]] = why
+    if not all(killed_when.values()) and unnamed and not why_not:
+        raise AnalysisError(f"R-SUPERSEDE: cannot tell which attribute {unnamed[0]} removes")
     ok = all(killed_when.values())
     res.inst(pf.fq, f"chg cleared under {conds.get(chg_k)}, rad cleared under {conds.get(rad_k)}: both follow from a CHG line and from a RAD line", "ok" if ok else "fail")
     if not ok:
@@ -1220,22 +1335,47 @@ def r_supersede(ctx) -> RuleResult:
                          f"a CHG or RAD property line does not clear {miss} of all atoms: atom-block charge codes survive although the format says they are superseded"
                          + (f" ({'; '.join(why_not.values())})" if why_not else ""),
                          line=fn.lineno))
-    # entries of all lines accumulate: inside the scan loop nothing that depends on the line is stored under a loop-invariant name / key
-    for lp in [n for n in own_walk(fn) if isinstance(n, ast.For) and isinstance(n.target, ast.Name)]:
-        lv = lp.target.id
-        after = [st for st in fn.body if getattr(st, "lineno", 0) > lp.end_lineno]
+    # entries of all lines accumulate: inside the scan loop nothing that depends on the line is stored under a loop-invariant
+    # name / key, or under a key that is the same for every line of a kind
+    sfn = sf.node
+    for lp in [n for n in own_walk(sfn) if isinstance(n, ast.For) and isinstance(n.target, ast.Name)]:
+        lv2 = lp.target.id
+        after = [st for st in sfn.body if getattr(st, "lineno", 0) > lp.end_lineno]
         used_after = {x.id for st in after for x in ast.walk(st) if isinstance(x, ast.Name) and isinstance(x.ctx, ast.Load)}
+        used_after |= {x.id for r_ in own_walk(sfn) if isinstance(r_, ast.Return) and r_.value is not None for x in ast.walk(r_.value) if isinstance(x, ast.Name)}
+        line_derived = {lv2}
+        for _ in range(3):
+            for st in ast.walk(lp):
+                if isinstance(st, ast.Assign) and isinstance(st.targets[0], ast.Name) and line_derived & names_in(st.value):
+                    line_derived.add(st.targets[0].id)
+        pre2 = [st for st in sfn.body if st.end_lineno < lp.lineno]
+
+        def key_on(sl, smp):
+            env = dict(consts_of(sf))
+            run_body(pre2, env)
+            env[lv2] = smp
+            run_body(lp.body, env)
+            return ceval(sl, env)
         for st in ast.walk(lp):
-            if isinstance(st, ast.Assign) and lv in names_in(st.value):
+            if isinstance(st, ast.Assign) and (lv2 in names_in(st.value) or (isinstance(st.targets[0], ast.Subscript) and line_derived & names_in(st.value))):
                 tg = st.targets[0]
                 lossy = None
-                if isinstance(tg, ast.Name) and tg.id in used_after and tg.id != lv:
+                if isinstance(tg, ast.Name) and tg.id in used_after and tg.id != lv2 and lv2 in names_in(st.value):
                     lossy = tg.id
-                elif isinstance(tg, ast.Subscript) and isinstance(tg.value, ast.Name) and tg.value.id in used_after and try_const(ctx, pf, tg.slice) is not None:
-                    lossy = norm(tg)
+                elif isinstance(tg, ast.Subscript) and isinstance(tg.value, ast.Name) and tg.value.id in used_after and tg.value.id not in names_in(st.value):
+                    if try_const(ctx, sf, tg.slice) is not None:
+                        lossy = norm(tg)
+                    else:
+                        # the key is computed: is it the same for two different lines of one kind?
+                        try:
+                            same = all(key_on(tg.slice, sm_[0]) == key_on(tg.slice, sm_[1]) for sm_ in SAMPLES.values())
+                        except Exception:
+                            same = None
+                        if same:
+                            lossy = norm(tg)
                 if lossy:
-                    res.inst(pf.fq, short(st), "fail")
-                    res.fail(Finding("R-SUPERSEDE", pf.module.rel, pf.qualname, norm(st),
+                    res.inst(sf.fq, short(st), "fail")
+                    res.fail(Finding("R-SUPERSEDE", sf.module.rel, sf.qualname, norm(st),
                                      f"`{lossy}` is overwritten for every matching line: only the last line of a kind is kept, entries spread over several lines (more than eight entries) are lost", line=st.lineno))
     # clearing precedes the merge on every path
     for mc in merge_calls:
@@ -1261,21 +1401,22 @@ def r_supersede(ctx) -> RuleResult:
             if bad:
                 res.fail(Finding("R-SUPERSEDE", k["func"].module.rel, k["func"].qualname, norm(k["node"]), "attributes are cleared after the property entries were merged: the entries themselves are lost", line=k["node"].lineno))
     # the scan ends at M  END or raises
-    loops = [n for n in own_walk(fn) if isinstance(n, ast.For)]
+    loops = [n for n in own_walk(sf.node) if isinstance(n, ast.For)]
     scan = None
     for lp in loops:
-        if mentions_text(ctx, pf, lp, "M  END"):
+        if mentions_text(ctx, sf, lp, "M  END"):
             scan = lp
     if scan is None:
-        res.inst(pf.fq, "scan loop with `M  END` test", "fail")
-        res.fail(Finding("R-SUPERSEDE", pf.module.rel, pf.qualname, "property scan", "the property scan no longer stops at `M  END`", line=fn.lineno))
+        res.inst(sf.fq, "scan loop with `M  END` test", "fail")
+        res.fail(Finding("R-SUPERSEDE", sf.module.rel, sf.qualname, "property scan", "the property scan no longer stops at `M  END`", line=sf.node.lineno))
     else:
-        ln = cfg.node_of(scan)
-        done_targets = [t for _, t, d in cfg.g.out_edges(ln, data=True) if d.get("label") in ("done", "both")]
-        ok = bool(done_targets) and all(not cfg.reachable(t, cfg.EXIT) and t != cfg.EXIT for t in done_targets)
-        res.inst(pf.fq, "running off the end of the file without `M  END` raises", "ok" if ok else "fail")
+        cfgs = cfg_of(sf.node)
+        ln = cfgs.node_of(scan)
+        done_targets = [t for _, t, d in cfgs.g.out_edges(ln, data=True) if d.get("label") in ("done", "both")]
+        ok = bool(done_targets) and all(not cfgs.reachable(t, cfgs.EXIT) and t != cfgs.EXIT for t in done_targets)
+        res.inst(sf.fq, "running off the end of the file without `M  END` raises", "ok" if ok else "fail")
         if not ok:
-            res.fail(Finding("R-SUPERSEDE", pf.module.rel, pf.qualname, short(scan, 60), "a file without `M  END` is accepted silently", line=scan.lineno))
+            res.fail(Finding("R-SUPERSEDE", sf.module.rel, sf.qualname, short(scan, 60), "a file without `M  END` is accepted silently", line=scan.lineno))
     return res
 
 
